@@ -234,19 +234,16 @@ func (s *SFTPStore) Prune(ctx context.Context, ids map[ChunkID]struct{}) error {
 			continue
 		}
 		path := walker.Path()
-		if !strings.HasSuffix(path, CompressedChunkExt) { // Skip files without chunk extension
-			continue
-		}
 		// Skip compressed chunks if this is running in uncompressed mode and vice-versa
 		var sID string
 		if c.opt.Uncompressed {
 			if !strings.HasSuffix(path, UncompressedChunkExt) {
-				return nil
+				continue
 			}
 			sID = strings.TrimSuffix(filepath.Base(path), UncompressedChunkExt)
 		} else {
 			if !strings.HasSuffix(path, CompressedChunkExt) {
-				return nil
+				continue
 			}
 			sID = strings.TrimSuffix(filepath.Base(path), CompressedChunkExt)
 		}
